@@ -104,7 +104,6 @@ def q_used(run, c):
     ms = W.msubs[sname]
     a, b = stages[tf]
     plates = [n for n in run.lc.declared if isinstance(run.baked.get(n), run.rep.Plate)]
-    kid = run.first_excuse(('C09',))
     if c.get('dests', 'plates') == 'plates':
         dests, dest_arg = plates, "plates"
     else:
@@ -112,6 +111,7 @@ def q_used(run, c):
         if not dests:
             return
         dest_arg = [user_object(run, n, c.get('pass_result', False)) for n in dests]
+    kid = run.scoped_excuse(('C09',), dests)
     exp, trash = expected_used(run, sname, a, b, dests)
     uu = unit or ('U' if ms.is_enzyme else u.cfg['moles_display_unit'])
     mult, base = M.split_unit(uu)
@@ -173,7 +173,7 @@ def q_additivity(run, c):
     u = W.units
     stages = stages_of(run)
     plates = [n for n in run.lc.declared if isinstance(run.baked.get(n), run.rep.Plate)]
-    kid = run.first_excuse(('C09',))
+    kid = run.scoped_excuse(('C09',), plates)
     named = sorted((v, k) for k, v in stages.items() if k != 'all')
     sname = c['sub']
     if sname not in W.msubs or len(named) < 2 or not plates:
@@ -280,7 +280,7 @@ def q_flows(run, c):
     W, R = run.W, run.recipe
     u = W.units
     stages = stages_of(run)
-    kid = run.first_excuse(('C15',))
+    kid = run.scoped_excuse(('C15',), [c['obj']])
     rng = None
     for _ in range(1):
         name, tf, unit = c['obj'], c['tf'], c['unit']
